@@ -57,7 +57,7 @@ func (b *c07B) atom(k int) []rj.Stmt {
 	panic("atom")
 }
 
-const c07NFrames = 20
+const c07NFrames = 21
 
 // frame wraps inner in construct k.
 func (b *c07B) frame(k int, inner []rj.Stmt) []rj.Stmt {
@@ -113,6 +113,10 @@ func (b *c07B) frame(k int, inner []rj.Stmt) []rj.Stmt {
 		name := fmt.Sprintf("w2%d", id)
 		b.lib = append(b.lib, &rj.BlockDef{Name: name, Body: []rj.Stmt{rj.T("<"), &rj.YieldContent{}, rj.T("|"), &rj.YieldContent{Ctx: rj.S("YC")}, rj.T("|w.="), rj.E(&rj.Dot{}), rj.T(">")}})
 		return []rj.Stmt{&rj.Yield{Name: name, Ctx: rj.S("WC"), HasContent: true, Content: inner}}
+	case 20: // a block that declares no parameters, yielded with a named argument
+		name := fmt.Sprintf("np%d", id)
+		b.lib = append(b.lib, &rj.BlockDef{Name: name, Body: inner})
+		return []rj.Stmt{&rj.Yield{Name: name, Args: []rj.Param{{Name: "x", Val: b.val("A")}}}}
 	case 15, 16:
 		fn := fmt.Sprintf("/inc%d.jet", id)
 		b.files = append(b.files, &rj.File{Name: fn, Body: inner})
